@@ -684,12 +684,14 @@ func TestCheck(t *testing.T) {
 		judge(r, res, "")
 		mu.Unlock()
 	})
+	checkHostileApiVersions(r)
 	r.Finish("exploration",
 		"scenarios: seeded (callers 1..N, 1-4 sequential requests each, request kind and issuing API per call, cancellation mode, hostile percentage, one hostile kind or a mix of up to 6, throttle size, hostility also on connection-initial ApiVersions) against a scripted broker deciding per arriving frame; virtual-time scenarios in synctest bubbles over in-memory pipes, real-time ones over loopback TCP. Non-trivial: at least one frame got a non-conforming reply; distinct by hash(mode, callers, per-caller, sequence of reply kinds in arrival order)",
 		"'exactly one response or error' is judged on the synchronous request APIs (Broker.Request, Broker.RetriableRequest, Client.Request): the call returns, and never with (nil, nil)",
 		"a successful response that carries no issued token at all is tolerated only when the broker garbled that request's body (random bytes can decode)",
 		fmt.Sprintf("virtual-time bound per call = (retries+2) x callers x perRequest + backoffs + RetryTimeout + 3s, perRequest = 2 connection attempts x 3 ApiVersions tries x (dial %v + write %v + read %v) + write + longest read timeout; a KIP-219 throttle (honoured without cap by design) adds (throttle replies+1) x ThrottleMillis", dialTimeout, reqOverhead, reqOverhead),
 		"real-time scenarios never judge time: a call not returned after 60 s is INCONCLUSIVE",
+		fmt.Sprintf("hostile ApiVersions negotiation (real time): a broker answering every ApiVersions request with UNSUPPORTED_VERSION and a seeded range for key 18 (same version, higher, one lower for ever, negative, no keys, same after one downgrade, min above max); verdict on a count, not on time: more than %d ApiVersions requests for one Metadata request (RequestRetries 0-2) is a negotiation loop; a request that returns nil error is a violation too", apiVersionsBound),
 	)
 }
 
